@@ -337,8 +337,11 @@ def rule_c(ctx):
         ctx.note("C18.c: " + nt)
     ctx.floor(R, 5)
     rcf = m.func(RDC, "read_correction")
-    txt = [norm(x) for x in ast.walk(rcf.node) if isinstance(x, (ast.Assign, ast.Expr, ast.Return))]
-    ctx.ob(R, rcf.qname, "generic reader: class_name -> eval(class_name)() -> load(path)", "correction = eval(class_name)()" in txt and "correction.load(path)" in txt and "return correction" in txt, "", rcf.node)
+    amr = AM(rcf)
+    pth = rcf.params[0]
+    amr.let("cls_name", f"np.load({pth}, allow_pickle=True)['class_name'].item()")
+    ok = amr.has(rcf.node, "correction = eval(cls_name)()") is not None and amr.has(rcf.node, f"correction.load({pth})") is not None and amr.has(rcf.node, "return correction") is not None
+    ctx.ob(R, rcf.qname, "generic reader: class_name -> eval(class_name)() -> load(path)", ok, str(amr.show()), rcf.node)
 
 
 EXEMPT_D = {
